@@ -40,6 +40,12 @@ func fillBytes(seed uint64, n int) []byte {
 }
 
 func drawLen(c *sim.Ctx) int {
+	if c.Chance(12) {
+		// larger than 64 KiB (loopback and offloaded captures): around the
+		// sizes where readers stop allocating on the word of a length field
+		c.Fault("packet_over_64k")
+		return 65530 + c.Draw(9000)
+	}
 	switch c.Weighted(3, 4, 2, 1) {
 	case 0:
 		return c.Draw(9)
@@ -90,8 +96,11 @@ func simC14pcap(c *sim.Ctx) {
 		n = 12
 	}
 	snap := uint32(65536)
-	if c.Chance(300) {
+	switch c.Weighted(6, 3, 1) {
+	case 1:
 		snap = uint32(64 + c.Draw(2000))
+	case 2:
+		snap = 262144
 	}
 	lt := []layers.LinkType{layers.LinkTypeEthernet, layers.LinkTypeRaw, layers.LinkTypeLinuxSLL, layers.LinkTypeNull}[c.Draw(4)]
 	f := disk.NewFile()
@@ -434,8 +443,12 @@ func simC14ng(c *sim.Ctx) {
 			}
 		}
 		l := drawLen(c)
+		ifx := c.Draw(len(intfs))
+		if sl := int(intfs[ifx].SnapLength); sl != 0 && l > sl {
+			l = sl // a capture never holds more of a packet than the interface's snap length
+		}
 		p := pkt{data: fillBytes(uint64(i*104729+l+1), l)}
-		p.ci.InterfaceIndex = c.Draw(len(intfs))
+		p.ci.InterfaceIndex = ifx
 		p.ci.CaptureLength = l
 		p.ci.Length = l
 		if c.Chance(300) {
